@@ -17,7 +17,7 @@ echo "clean: tests: $(run_tests)  demo exit: $(run_demo)"
 git -C $WT apply $SRC/patch.diff || { echo "patch does not apply"; exit 2; }
 echo "patched: tests: $(run_tests)  demo exit: $(run_demo)   [$(tail -1 /tmp/seeddemo_$P$M.log | cut -c1-160)]"
 for C in $CHECKS; do
-  OUT=$(cd /verif && HALMOS_REPO=$WT timeout 2400 bin/check $C quick 2>&1 | tail -4)
+  OUT=$(cd ${VERIF_DIR:-/verif} && HALMOS_REPO=$WT timeout 2400 bin/check $C quick 2>&1 | tail -4)
   if echo "$OUT" | grep -q "^VIOLATION"; then echo "check $C: CAUGHT: $(echo "$OUT" | grep -m1 'FAIL\[' | cut -c1-260)"; echo "    $(echo "$OUT" | grep '^VIOLATION' | cut -c1-200)";
   else echo "check $C: MISSED: $(echo "$OUT" | tail -1 | cut -c1-200)"; fi
 done
